@@ -253,14 +253,159 @@ Proof.
   split; [exact HR|]. vm_compute in Hz. injection Hz as <-. split; reflexivity.
 Qed.
 
-(* NOT proved -- kept as a statement:
-   Theorem C11_parse_denotes_spelling_partial : the same as C11_parse_denotes for files whose names
-     may be written with upper-case letters (NAbs / NRel carrying the text as written, denoting its
-     lower-case form), numbers as any digit string from_str accepts (leading zeros, '+'), addresses
-     in any spelling FromStr accepts, types also as TYPE<n>, the root wildcard as '*.' and wildcard
-     owners written as names with a leading '*.'.
-   Missing: the abstract syntax of ZoneParseDenotes.v fixes one spelling per value; the parser's
-   case folding is available as a lemma (Name/NameProofs.v dotted_case_insensitive) but is not
-   threaded through nref_parse / rda_parse.  The correspondence stream generates these spellings
-   (upper-case letters in labels, TYPE<n> is rejected there as 'ambiguous'), judged by the python
-   denotation. *)
+(* ====================================================================== *)
+(* 4. parse_denotes beyond the canonical spelling                           *)
+(* ====================================================================== *)
+From RV Require Import ZoneFile.ZoneSerialiseModel ZoneFile.ZoneParseSpelling.
+
+(* upper-case letters in names: parse_domain and parse_domain_or_wildcard fold the ASCII case of
+   EVERY text (absolute, relative, "@", "*", "*.x"): a name may be written in any letter case *)
+Theorem C11_spelling_upper : forall o s,
+  parse_domain o (map lower s) = parse_domain o s /\
+  parse_domain_or_wildcard o (map lower s) = parse_domain_or_wildcard o s.
+Proof. intros o s. split; [apply parse_domain_lower|apply pdw_lower]. Qed.
+Print Assumptions C11_spelling_upper.
+
+(* numbers: <u16/u32 as FromStr> reads the value from its decimal text preceded by any number of
+   zeros and, before those, one '+' (max = 65535 / 4294967295); the first form is all digits, as a
+   TTL field must be *)
+Theorem C11_spelling_numbers : forall max n k, n < 4294967296 -> n <= max ->
+  uint_from_str max (repeat 48 k ++ show_dec n) = Some n /\
+  uint_from_str max (43 :: repeat 48 k ++ show_dec n) = Some n /\
+  all_digits (repeat 48 k ++ show_dec n) = true.
+Proof. intros max n k H1 H2. split; [apply uint_zeros; assumption|]. split; [apply uint_plus; assumption|apply zeros_all_digits]. Qed.
+Print Assumptions C11_spelling_numbers.
+
+(* the type written TYPE<n>, n the code of one of the 18 known types, is that type *)
+Theorem C11_spelling_type : forall ty, rtype_known ty = true ->
+  rtype_from_str (show_rtype ty) = Some ty /\ rtype_from_str (rtype_unknown_prefix ++ show_dec ty) = Some ty.
+Proof. intros ty H. split; [apply show_rtype_parse|apply type_code_parse]; exact H. Qed.
+Print Assumptions C11_spelling_type.
+
+(* the wildcard at the root written "*." (canonically "*..": "*." before the root's text ".") *)
+Theorem C11_spelling_root_wildcard : forall o,
+  parse_domain_or_wildcard o [42; 46] = Ok (MWildcard root_domain) /\
+  parse_domain_or_wildcard o (oref_text (OWild (NAbs root_domain))) = Ok (MWildcard root_domain).
+Proof. intro o. split; reflexivity. Qed.
+Print Assumptions C11_spelling_root_wildcard.
+
+(* composed: C11_parse_denotes for files whose tokens are RESPELLED.  [lines_ok_sp] is [lines_ok]
+   with "the tokens of the line are the entry's canonical tokens" replaced by "are a spelling of
+   the entry" ([entry_spelled]): each name token is the canonical text in any letter case
+   (map lower t = canonical); each number any text FromStr reads as the value (leading zeros, '+';
+   the TTL field: all digits); an address any text the codec's FromStr reads as the value; the
+   type token any text RecordType::from_str reads as the type (mnemonic or TYPE<n>); the owner of
+   the wildcard at the root also "*."; PROVIDED the respelled entry stays unambiguous to parse_rr:
+   the owner token is not "IN", "$ORIGIN", "$INCLUDE", and no RDATA token but the last reads as a
+   type mnemonic (an owner "in" written "IN" is the class; "MINFO NS x." is an NS record owned by
+   "MINFO": these are different entries, not spellings).  Layout stays arbitrary. *)
+Theorem C11_parse_denotes_spelled : forall ip, codec_rt ip -> forall ls apex so ops,
+  lines_ok_sp ip sp_init ls -> denote ls = Some (apex, so, ops) ->
+  exists z, deserialise ip (render ls) = Ok z /\ z_apex z = apex /\ z_soa z = so /\
+            zone_build apex so ops = Ok z /\ R (labels apex) (z_records z) (flat_of_ops apex so ops).
+Proof. exact parse_denotes_spelled. Qed.
+Print Assumptions C11_parse_denotes_spelled.
+
+(* it generalises C11_parse_denotes: the canonical spelling is one of the spellings *)
+Theorem C11_canonical_is_spelled : forall ip, codec_rt ip -> forall ls, lines_ok ip sp_init ls -> lines_ok_sp ip sp_init ls.
+Proof. intros ip Hip ls. apply (lines_ok_spelled ip Hip ls sp_init). exact I. Qed.
+Print Assumptions C11_canonical_is_spelled.
+
+(* validity of a respelled file is checkable by computation; with the model's codec nothing is assumed *)
+Theorem C11_lines_ok_spb_sound : forall ip ls s, lines_ok_spb ip s ls = true -> lines_ok_sp ip s ls.
+Proof. exact lines_ok_spb_sound. Qed.
+Print Assumptions C11_lines_ok_spb_sound.
+
+Theorem C11_parse_denotes_spelled_zf : forall ls apex so ops,
+  lines_ok_spb zf_codec sp_init ls = true -> denote ls = Some (apex, so, ops) ->
+  exists z, zf_deserialise (render ls) = Ok z /\ z_apex z = apex /\ z_soa z = so /\
+            zone_build apex so ops = Ok z /\ R (labels apex) (z_records z) (flat_of_ops apex so ops).
+Proof.
+  intros ls apex so ops H. apply (parse_denotes_spelled zf_codec zf_codec_rt). apply lines_ok_spb_sound. exact H.
+Qed.
+Print Assumptions C11_parse_denotes_spelled_zf.
+
+(* ---- an instance: every respelling at once; the file is NOT canonical (lines_okb rejects it) ----
+     $ORIGIN Example.COM.
+     @ IN SOA Ns H 01 +2 003 4 +060        <- upper-case letters in names, leading zeros and '+' in RDATA numbers
+                                              ("NS" there would be rejected by the checker: a type mnemonic before the last token)
+     WWW 0300 TYPE1 1.2.3.4                <- upper-case owner, TTL with a leading zero, TYPE1 = A
+     *.Sub 007 IN TYPE15 +010 Mail         <- wildcard owner in mixed case, TYPE15 = MX, '+' and zeros
+   and, without a SOA (apex = the root), the wildcard at the root written "*.":
+     *. 5 TXT x *)
+Definition ex_sp_lines : list fline :=
+  [ {| l_entry := Some (FOrigin (NAbs (ZoneProofs.nm [ex; com])));
+       l_items := [tk S_ORIGIN; sp1; tk [69;120;97;109;112;108;101;46;67;79;77;46]]; l_term := TNl |};
+    {| l_entry := Some (FRR (frr0 (Some (OName NAt)) None true false RT_SOA (A_SOA (NRel [[110;115]]) (NRel [[104]]) 1 2 3 4 60)));
+       l_items := [tk [64]; sp1; tk S_IN; sp1; tk [83;79;65]; sp1; tk [78;115]; sp1; tk [72]; sp1; tk [48;49]; sp1; tk [43;50]; sp1;
+                   tk [48;48;51]; sp1; tk [52]; sp1; tk [43;48;54;48]];
+       l_term := TNl |};
+    {| l_entry := Some (FRR (frr0 (Some (OName (NRel [www]))) (Some 300) false false RT_A (A_A 16909060)));
+       l_items := [tk [87;87;87]; sp1; tk [48;51;48;48]; sp1; tk [84;89;80;69;49]; sp1; tk [49;46;50;46;51;46;52]]; l_term := TNl |};
+    {| l_entry := Some (FRR (frr0 (Some (OWild (NRel [[115;117;98]]))) (Some 7) true true RT_MX (A_MX 10 (NRel [[109;97;105;108]]))));
+       l_items := [tk [42;46;83;117;98]; sp1; tk [48;48;55]; sp1; tk S_IN; sp1; tk [84;89;80;69;49;53]; sp1; tk [43;48;49;48]; sp1;
+                   tk [77;97;105;108]];
+       l_term := TEof |} ].
+
+Example C11_parse_denotes_spelled_ex :
+  lines_ok_spb zf_codec sp_init ex_sp_lines = true /\ lines_okb zf_codec sp_init ex_sp_lines = false /\
+  exists apex so ops z,
+    denote ex_sp_lines = Some (apex, so, ops) /\ apex = ZoneProofs.nm [ex; com] /\ length ops = 2%nat /\
+    zf_deserialise (render ex_sp_lines) = Ok z /\ z_apex z = apex /\ z_soa z = so /\
+    R (labels apex) (z_records z) (flat_of_ops apex so ops) /\
+    option_map soa_minimum (z_soa z) = Some 60 /\
+    map (fun p => (labels (fst p), map (fun r => (zr_type r, zr_ttl r, zr_data r)) (snd p))) (zone_all_records z)
+    = [ ([ex; com; []], [(RT_SOA, 60, RD_SOA (ZoneProofs.nm [[110;115]; ex; com]) (ZoneProofs.nm [[104]; ex; com]) 1 2 3 4 60)]);
+        ([www; ex; com; []], [(RT_A, 300, RD_A 16909060)]) ] /\
+    map (fun p => (labels (fst p), map (fun r => (zr_type r, zr_ttl r, zr_data r)) (snd p))) (zone_all_wildcard_records z)
+    = [ ([[115;117;98]; ex; com; []], [(RT_MX, 60, RD_MX 10 (ZoneProofs.nm [[109;97;105;108]; ex; com]))]) ].
+Proof.
+  split; [vm_compute; reflexivity|]. split; [vm_compute; reflexivity|].
+  destruct (denote ex_sp_lines) as [[[apex so] ops]|] eqn:Ed; [|vm_compute in Ed; discriminate].
+  destruct (C11_parse_denotes_spelled_zf ex_sp_lines apex so ops ltac:(vm_compute; reflexivity) Ed) as (z & Hz & Ha & Hs & _ & HR).
+  exists apex, so, ops, z. split; [reflexivity|].
+  assert (Hv : apex = ZoneProofs.nm [ex; com] /\ length ops = 2%nat) by (vm_compute in Ed; injection Ed as <- <- <-; split; reflexivity).
+  destruct Hv as [Hv1 Hv2]. split; [exact Hv1|]. split; [exact Hv2|]. split; [exact Hz|]. split; [exact Ha|]. split; [exact Hs|].
+  split; [exact HR|]. vm_compute in Hz. injection Hz as <-. repeat split; reflexivity.
+Qed.
+
+Definition ex_root_wild_lines : list fline :=
+  [ {| l_entry := Some (FRR (frr0 (Some (OWild (NAbs root_domain))) (Some 5) false false RT_TXT (A_Octets [120])));
+       l_items := [tk [42;46]; sp1; tk [53]; sp1; tk [84;88;84]; sp1; tk [120]]; l_term := TNl |} ].
+
+Example C11_spelling_root_wildcard_ex :
+  lines_ok_spb zf_codec sp_init ex_root_wild_lines = true /\ lines_okb zf_codec sp_init ex_root_wild_lines = false /\
+  match zf_deserialise (render ex_root_wild_lines) with
+  | Ok z => z_apex z = root_domain /\ zone_all_records z = [] /\
+            map (fun p => (fst p, map zr_data (snd p))) (zone_all_wildcard_records z) = [(root_domain, [RD_Octets [120]])]
+  | _ => False
+  end.
+Proof. split; [vm_compute; reflexivity|]. split; [vm_compute; reflexivity|]. vm_compute. repeat split; reflexivity. Qed.
+
+(* an owner NAME written with a leading "*." -- relative ("*.a.b" under an origin) or absolute
+   ("*.a.b.") -- is textually the wildcard owner, and the syntax tree "name whose first label is *"
+   has the text and (by the rule of fix 0286676, star_rule) the denotation of the tree OWild, which
+   C11_parse_denotes(_spelled) covers: the restriction in oref_ok removes a duplicate tree, not a text *)
+Theorem C11_star_owner_same : forall o,
+  (forall pre, pre <> [] ->
+     oref_text (OName (NRel (S_STAR :: pre))) = oref_text (OWild (NRel pre)) /\
+     resolve_owner o (OName (NRel (S_STAR :: pre))) = resolve_owner o (OWild (NRel pre))) /\
+  (forall front, NameProofs.good_front front -> front <> [] ->
+     oref_text (OName (NAbs (mk (S_STAR :: front)))) = oref_text (OWild (NAbs (mk front))) /\
+     resolve_owner o (OName (NAbs (mk (S_STAR :: front)))) = resolve_owner o (OWild (NAbs (mk front)))).
+Proof. intro o. split; [apply star_owner_rel|apply star_owner_abs]. Qed.
+Print Assumptions C11_star_owner_same.
+
+(* What remains of parse_denotes_spelling -- kept as a statement, NOT proved:
+   Theorem C11_parse_denotes_spelling_partial : C11_parse_denotes_spelled
+     (a) with a '+' also in the TTL FIELD of the shapes that have an owner (parse_rr_4 and the last
+         branch of parse_rr_3 call parse_u32 on it directly; in the owner-less shapes "+5" is not all
+         digits and IS an owner name, so there it is not a spelling of a TTL): needs parse_rr_forms
+         (ZoneFileProofs.v) restated with "all digits" only where the code tests it;
+     (b) without the side conditions where they are not needed: an upper-case RDATA name that is a
+         type mnemonic is harmless unless the tokens after it parse as that type's RDATA
+         (inner_plain is sufficient, not necessary).
+   Not a gap: "an owner NAME written with a leading '*.'" is the same TEXT as the wildcard owner
+   OWild and is covered as such (oref_ok only excludes the second abstract syntax tree for one
+   text; C11_star_owner_same below shows both trees have that text and that denotation).
+   The correspondence stream generates all these spellings, judged by the python denotation. *)
